@@ -11,10 +11,6 @@ Import ListNotations.
 Definition arity_ok (sp : domspec) (n : nat) : Prop :=
   match ds_min sp with Some m => (m <= n)%nat | None => List.length (ds_shapes sp) = n end.
 
-(* the shape expected at each position of a call with n arguments *)
-Definition expected_shapes (sp : domspec) (n : nat) : list shape :=
-  match ds_min sp with Some _ => repeat (hd ShScalar (ds_shapes sp)) n | None => ds_shapes sp end.
-
 Lemma validate_arity : forall sp args,
   ~ arity_ok sp (List.length args) ->
   exists e a, validate sp args = VArity e a (List.length args).
@@ -114,68 +110,68 @@ Proof.
 Qed.
 
 (* the wrapper as a callable *)
-Lemma wrap_wrong_count : forall V sp (shape_of : V -> argshape) f args,
-  ~ arity_ok sp (List.length args) -> wrap sp shape_of f args = Raise XArgumentError.
+Lemma wrap_wrong_count : forall V sp (shape_of : V -> argshape) item f args,
+  ~ arity_ok sp (List.length args) -> wrap sp shape_of item f args = Raise XArgumentError.
 Proof.
-  intros V sp shape_of f args H. unfold wrap.
+  intros V sp shape_of item f args H. unfold wrap.
   destruct (validate_arity sp (map shape_of args)) as [e [a E]]; [rewrite map_length; exact H | ].
   rewrite E. reflexivity.
 Qed.
 
-Lemma wrap_wrong_shape : forall V sp (shape_of : V -> argshape) f args i,
+Lemma wrap_wrong_shape : forall V sp (shape_of : V -> argshape) item f args i,
   arity_ok sp (List.length args) -> (i < List.length args)%nat ->
   shape_ok (nth i (expected_shapes sp (List.length args)) ShScalar) (nth i (map shape_of args) ANumber) = false ->
-  wrap sp shape_of f args = Raise XArgumentShapeError.
+  wrap sp shape_of item f args = Raise XArgumentShapeError.
 Proof.
-  intros V sp shape_of f args i A Hi Hbad. unfold wrap.
+  intros V sp shape_of item f args i A Hi Hbad. unfold wrap.
   destruct (validate_shape_error sp (map shape_of args) i) as [flags [E _]];
     rewrite ?map_length; try assumption.
   rewrite E. reflexivity.
 Qed.
 
-Lemma wrap_calls : forall V sp (shape_of : V -> argshape) f args,
-  validate sp (map shape_of args) = VCall -> wrap sp shape_of f args = f args.
+(* when validation passes the function is called on the validated values *)
+Lemma wrap_calls : forall V sp (shape_of : V -> argshape) item f args,
+  validate sp (map shape_of args) = VCall ->
+  wrap sp shape_of item f args = f (coerce item (expected_shapes sp (List.length args)) args).
 Proof. intros. unfold wrap. rewrite H. reflexivity. Qed.
 
-(* ---------------- the letter of the property: a scalar position takes numbers only ---------------- *)
-(* textbook reading of the shapes: a scalar is a number (or a 0-dimensional array), never a 1-element vector/matrix *)
-Definition strict_shape_ok (s : shape) (a : argshape) : bool :=
-  match s, a with
-  | ShScalar, AArray (_ :: _) => false
-  | _, _ => shape_ok s a
-  end.
-
-Definition one_element_array (a : argshape) : bool :=
-  match a with AArray (d :: ds) => Nat.eqb (size (d :: ds)) 1 | _ => false end.
-
-Lemma strict_agrees : forall s a, one_element_array a = false -> strict_shape_ok s a = shape_ok s a.
+Lemma coerce_length : forall V (item : V -> V) ss args, List.length ss = List.length args ->
+  List.length (coerce item ss args) = List.length args.
 Proof.
-  intros s a H. destruct s; try reflexivity. destruct a as [|d]; try reflexivity. destruct d as [|x d]; try reflexivity.
-  simpl in *. symmetry. exact H.
+  induction ss as [|s ss IH]; destruct args as [|a args]; simpl; intro H; try discriminate; try reflexivity.
+  f_equal. apply IH. lia.
 Qed.
 
-(* partial form of "arguments of the wrong count or shape raise": it holds whenever no argument is a one-element array *)
-Lemma validate_strict_partial : forall sp args,
-  forallb (fun a => negb (one_element_array a)) args = true ->
-  (validate sp args = VCall <->
-   arity_ok sp (List.length args) /\
-   forall i, (i < List.length args)%nat ->
-             strict_shape_ok (nth i (expected_shapes sp (List.length args)) ShScalar) (nth i args ANumber) = true).
+Lemma coerce_nth : forall V (item : V -> V) ss args i d, List.length ss = List.length args -> (i < List.length args)%nat ->
+  nth i (coerce item ss args) d =
+  match nth i ss ShSquare with ShScalar => item (nth i args d) | _ => nth i args d end.
 Proof.
-  intros sp args H. rewrite validate_call_iff. rewrite forallb_forall in H.
-  assert (E : forall i, (i < List.length args)%nat -> forall s, strict_shape_ok s (nth i args ANumber) = shape_ok s (nth i args ANumber)).
-  { intros i Hi s. apply strict_agrees. specialize (H (nth i args ANumber) (nth_In _ _ Hi)).
-    apply negb_true_iff in H. exact H. }
-  split; intros [A Hs]; (split; [exact A | ]); intros i Hi; [rewrite E by exact Hi | rewrite <- E by exact Hi]; apply Hs; exact Hi.
+  induction ss as [|s ss IH]; destruct args as [|a args]; simpl; intros i d H Hi; try discriminate; try lia.
+  destruct i; [destruct s; reflexivity | ]. apply IH; lia.
 Qed.
 
-(* ... and the full statement fails: sin([x]) is accepted (is_numberlike_array) *)
-Lemma validate_strict_refuted :
-  exists sp args, lookup Gen.MathFuncs.gen_default_functions "sin" = Some (mkF (TNp "sin") (Some sp))
-    /\ validate sp args = VCall
-    /\ strict_shape_ok (nth 0 (expected_shapes sp (List.length args)) ShScalar) (nth 0 args ANumber) = false.
+(* what a scalar-domain function receives is a number (never a one-element array), and what any other position
+   receives is the argument itself *)
+Lemma validated_arguments : forall V sp (shape_of : V -> argshape) (item : V -> V) args d,
+  (forall a, shape_ok ShScalar (shape_of a) = true -> shape_of (item a) = ANumber) ->
+  validate sp (map shape_of args) = VCall ->
+  List.length (coerce item (expected_shapes sp (List.length args)) args) = List.length args /\
+  forall i, (i < List.length args)%nat ->
+    match nth i (expected_shapes sp (List.length args)) ShSquare with
+    | ShScalar => shape_of (nth i (coerce item (expected_shapes sp (List.length args)) args) d) = ANumber
+    | _ => nth i (coerce item (expected_shapes sp (List.length args)) args) d = nth i args d
+    end.
 Proof.
-  exists (mkSpec [ShScalar] None (Some "sin"%string)), [AArray [1%nat]]. repeat split.
+  intros V sp shape_of item args d Hitem Hv.
+  apply validate_call_iff in Hv. rewrite map_length in Hv. destruct Hv as [A Hs].
+  pose proof (expected_shapes_length sp _ A) as L.
+  split; [apply coerce_length; exact L | ].
+  intros i Hi. rewrite coerce_nth by assumption.
+  destruct (nth i (expected_shapes sp (List.length args)) ShSquare) eqn:E; try reflexivity.
+  apply Hitem. specialize (Hs i Hi).
+  rewrite (nth_indep _ ShScalar ShSquare) in Hs by (rewrite L; exact Hi). rewrite E in Hs.
+  rewrite (nth_indep _ ANumber (shape_of d)) in Hs by (rewrite map_length; exact Hi).
+  rewrite map_nth in Hs. exact Hs.
 Qed.
 
 (* ---------------- eval_function ---------------- *)
@@ -218,35 +214,35 @@ Qed.
 
 (* a call of a table entry: wrong count -> ArgumentError; wrong shape -> ArgumentShapeError; anything else that goes
    wrong inside the function -> a student-facing error *)
-Lemma call_entry_student_facing : forall V e (shape_of : V -> argshape) nargs raw args x,
-  call_entry Gen.MathFuncs.gen_eval_function_handlers Gen.MathFuncs.gen_arity_mismatch e shape_of nargs raw args = Raise x ->
+Lemma call_entry_student_facing : forall V e (shape_of : V -> argshape) item nargs raw args x,
+  call_entry Gen.MathFuncs.gen_eval_function_handlers Gen.MathFuncs.gen_arity_mismatch e shape_of item nargs raw args = Raise x ->
   student_facing x = true.
 Proof.
-  intros V e shape_of nargs raw args x. unfold call_entry. destruct (fe_spec e); apply eval_function_student_facing.
+  intros V e shape_of item nargs raw args x. unfold call_entry. destruct (fe_spec e); apply eval_function_student_facing.
 Qed.
 
-Lemma call_entry_wrong_count_validated : forall V e sp (shape_of : V -> argshape) nargs raw args,
+Lemma call_entry_wrong_count_validated : forall V e sp (shape_of : V -> argshape) item nargs raw args,
   fe_spec e = Some sp -> ~ arity_ok sp (List.length args) ->
-  call_entry Gen.MathFuncs.gen_eval_function_handlers Gen.MathFuncs.gen_arity_mismatch e shape_of nargs raw args = Raise XArgumentError.
+  call_entry Gen.MathFuncs.gen_eval_function_handlers Gen.MathFuncs.gen_arity_mismatch e shape_of item nargs raw args = Raise XArgumentError.
 Proof.
-  intros V e sp shape_of nargs raw args E H. unfold call_entry. rewrite E. unfold eval_function. simpl.
+  intros V e sp shape_of item nargs raw args E H. unfold call_entry. rewrite E. unfold eval_function. simpl.
   rewrite wrap_wrong_count by exact H. reflexivity.
 Qed.
 
-Lemma call_entry_wrong_count_unvalidated : forall V e (shape_of : V -> argshape) nargs raw args,
+Lemma call_entry_wrong_count_unvalidated : forall V e (shape_of : V -> argshape) item nargs raw args,
   fe_spec e = None -> nargs <> List.length args ->
-  call_entry Gen.MathFuncs.gen_eval_function_handlers Gen.MathFuncs.gen_arity_mismatch e shape_of nargs raw args = Raise XArgumentError.
+  call_entry Gen.MathFuncs.gen_eval_function_handlers Gen.MathFuncs.gen_arity_mismatch e shape_of item nargs raw args = Raise XArgumentError.
 Proof.
-  intros V e shape_of nargs raw args E H. unfold call_entry. rewrite E. apply eval_function_wrong_count. exact H.
+  intros V e shape_of item nargs raw args E H. unfold call_entry. rewrite E. apply eval_function_wrong_count. exact H.
 Qed.
 
-Lemma call_entry_wrong_shape : forall V e sp (shape_of : V -> argshape) nargs raw args i,
+Lemma call_entry_wrong_shape : forall V e sp (shape_of : V -> argshape) item nargs raw args i,
   fe_spec e = Some sp -> arity_ok sp (List.length args) -> (i < List.length args)%nat ->
   shape_ok (nth i (expected_shapes sp (List.length args)) ShScalar) (nth i (map shape_of args) ANumber) = false ->
-  call_entry Gen.MathFuncs.gen_eval_function_handlers Gen.MathFuncs.gen_arity_mismatch e shape_of nargs raw args = Raise XArgumentShapeError.
+  call_entry Gen.MathFuncs.gen_eval_function_handlers Gen.MathFuncs.gen_arity_mismatch e shape_of item nargs raw args = Raise XArgumentShapeError.
 Proof.
-  intros V e sp shape_of nargs raw args i E A Hi Hb. unfold call_entry. rewrite E. unfold eval_function. simpl.
-  rewrite (wrap_wrong_shape V sp shape_of raw args i A Hi Hb). reflexivity.
+  intros V e sp shape_of item nargs raw args i E A Hi Hb. unfold call_entry. rewrite E. unfold eval_function. simpl.
+  rewrite (wrap_wrong_shape V sp shape_of item raw args i A Hi Hb). reflexivity.
 Qed.
 
 (* ---------------- numpy error state ---------------- *)
